@@ -52,7 +52,6 @@ Fixpoint leval (labels : list poly) (e : lexpr) : res poly :=
          else if 0 <? const q then (if is_const p then Ok (pconst (Z.shiftr (const p) (const q))) else cyc)
          else Err ["arithmetic-error"%string])
       else cyc
-  | LLate a => leval labels a
   end.
 
 (* get_as_int(..., bitness=16, unsigned=False) *)
@@ -76,66 +75,33 @@ Inductive stmt :=
 
 Inductive chunk :=
 | CBytes (bs : list Z)
-| CSkip (at_ : poly) (target : lexpr) (k : Z) (lazy : bool).
+| CSkip (at_ : poly) (target : lexpr) (k : Z).
 
 Record pstate := PState {
   cur : poly;                 (* address of the next byte *)
   labels : list poly;         (* addresses of the labels seen so far, in order *)
   base_e : option lexpr;      (* link_base["promise"].settled, with the expression it was settled to *)
   nskip : Z;
-  chunks : list chunk;
-  known : bool }.             (* every address so far was a plain int at compile time *)
+  chunks : list chunk }.
 
-Definition init : pstate := PState (pvar LA) [] None 0 [] false.
-
-Fixpoint labels_of (e : lexpr) : list nat :=
-  match e with
-  | LConst _ => []
-  | LLabel i => [i]
-  | LNeg a | LInv a | LLate a => labels_of a
-  | LAdd a b | LSub a b | LMul a b | LAw _ a b | LShl a b | LShr a b => labels_of a ++ labels_of b
-  end.
-Fixpoint has_late (e : lexpr) : bool :=
-  match e with
-  | LConst _ | LLabel _ => false
-  | LLate _ => true
-  | LNeg a | LInv a => has_late a
-  | LAdd a b | LSub a b | LMul a b | LAw _ a b | LShl a b | LShr a b => has_late a || has_late b
-  end.
-(* everything the expression mentions has been defined above the statement *)
-Definition closed (n : nat) (e : lexpr) : bool :=
-  negb (has_late e) && forallb (fun i => Nat.ltb i n) (labels_of e).
-
-(* Deferred.construct tries the value at once, under try_compute.  For the link base that
-   succeeds iff the expression is closed and every variable cancels (the Promise is not yet
-   settled at that moment, so a remaining LA is NotReadyError). *)
-Definition base_known_now (labels : list poly) (e : lexpr) : bool :=
-  closed (length labels) e &&
-  match leval labels e with Ok p => is_const p | _ => false end.
+Definition init : pstate := PState (pvar LA) [] None 0 [].
 
 (* compile_block, one statement *)
 Definition step (st : pstate) (s : stmt) : res pstate :=
   match s with
   | SBytes bs => Ok (PState (addc (cur st) (Z.of_nat (length bs))) (labels st) (base_e st) (nskip st)
-                            (chunks st ++ [CBytes bs]) (known st))
-  | SLabel => Ok (PState (cur st) (labels st ++ [cur st]) (base_e st) (nskip st) (chunks st) (known st))
+                            (chunks st ++ [CBytes bs]))
+  | SLabel => Ok (PState (cur st) (labels st ++ [cur st]) (base_e st) (nskip st) (chunks st))
   | SLink e =>
       match base_e st with
-      | None => Ok (PState (cur st) (labels st) (Some e) (nskip st) (chunks st) (base_known_now (labels st) e))
+      | None => Ok (PState (cur st) (labels st) (Some e) (nskip st) (chunks st))
       | Some _ => Err ["address-conflict"%string]
       end
   | SDot e =>
       match base_e st with
-      | None => Ok (PState (cur st) (labels st) (Some e) (nskip st) (chunks st)      (* "Set link base" *)
-                           (base_known_now (labels st) e))
-      | Some _ =>
-          (* the gap is a Deferred[bytes]; tried at once, it sees the address of this statement.
-             If it cannot be computed yet (base, an earlier gap or the target not yet numeric), it runs
-             when the whole image is needed -- and then the closure reads the block's FINAL address
-             (`nonlocal addr`), which contains the gap's own length: a cycle. *)
-          let lazy := negb (known st && closed (length (labels st)) e) in
-          Ok (PState (add (cur st) (pvar (skipvar (nskip st)))) (labels st) (base_e st)
-                     (nskip st + 1) (chunks st ++ [CSkip (cur st) e (nskip st) lazy]) (known st && negb lazy))
+      | None => Ok (PState (cur st) (labels st) (Some e) (nskip st) (chunks st))     (* "Set link base" *)
+      | Some _ => Ok (PState (add (cur st) (pvar (skipvar (nskip st)))) (labels st) (base_e st)
+                             (nskip st + 1) (chunks st ++ [CSkip (cur st) e (nskip st)]))
       end
   end.
 
@@ -145,9 +111,24 @@ Fixpoint pass1 (p : list stmt) (st : pstate) : res pstate :=
   | s :: r => do st' <- step st s; pass1 r st'
   end.
 
+Fixpoint labels_of (e : lexpr) : list nat :=
+  match e with
+  | LConst _ => []
+  | LLabel i => [i]
+  | LNeg a | LInv a => labels_of a
+  | LAdd a b | LSub a b | LMul a b | LAw _ a b | LShl a b | LShr a b => labels_of a ++ labels_of b
+  end.
+
+(* the target of gap k must not mention a label whose address contains gap k or a later one:
+   its number would need the length of this very gap *)
+Definition uses_later (labels : list poly) (e : lexpr) (k : Z) : bool :=
+  existsb (fun i => match nth_error labels i with
+                    | Some p => existsb (fun x => skipvar k <=? x) (vars p)
+                    | None => false end) (labels_of e).
+
 (* the closure `fn` of the `. =` branch, run when the base is known *)
-Definition skip_bytes (labels : list poly) (rho : var -> Z) (at_ : poly) (x : lexpr) (lazy : bool) : res (list Z) :=
-  if lazy then cyc else
+Definition skip_bytes (labels : list poly) (rho : var -> Z) (at_ : poly) (x : lexpr) (k : Z) : res (list Z) :=
+  if uses_later labels x k then cyc else
   let old := eval at_ rho in
   do xv <- zeval (map (fun q => eval q rho) labels) x;
   do new <- get_as_int16 xv;
@@ -158,8 +139,8 @@ Fixpoint emit (labels : list poly) (rho : var -> Z) (cs : list chunk) : res (lis
   match cs with
   | [] => Ok []
   | CBytes bs :: r => do t <- emit labels rho r; Ok (bs ++ t)
-  | CSkip at_ x k lazy :: r =>
-      do bs <- skip_bytes labels rho at_ x lazy;
+  | CSkip at_ x k :: r =>
+      do bs <- skip_bytes labels rho at_ x k;
       do t <- emit labels (upd rho (skipvar k) (Z.of_nat (length bs))) r;
       Ok (bs ++ t)
   end.
